@@ -2,8 +2,6 @@
 # PENDING lists properties whose check is not built yet in this revision.
 
 PENDING.update({
- "C02": "check not built yet in this revision (planned: engine iosim, see DESIGN.md section 5)",
- "C03": "check not built yet in this revision (planned: engine iosim)",
  "C08": "check not built yet in this revision (planned: engine procsim)",
  "C14": "check not built yet in this revision (planned: engines iosim + procsim)",
  "C15": "check not built yet in this revision (planned: engine procsim)",
@@ -23,3 +21,14 @@ check("C06", "walksim", "exploration",
   "Same scheduler assumptions as C07. The second device is reached through a symlink (the sandbox cannot mount), so same_file_system is exercised together with follow_links only. Ignore-rule semantics themselves (C04/C05) are not judged here: with rules active only serial==parallel is demanded.",
   "deterministic simulation: seeded schedules + seeded tree/config swarm, differential oracle (parallel vs serial vs independent listing)",
   "DESIGN.md section 5/C06")
+
+check("C02", "iosim", "exploration",
+  "Seeded search over read histories and buffer configurations of the real Searcher: each generated input/configuration is searched as an in-memory slice (reference) and then through SimReader under 10 (quick) / 20 (thorough) seeded histories (1-byte, small, geometric, terminator-aligned, anti-aligned incl. CR|LF splits, bursts, fixed odd sizes, full reads, EINTR injected at random reads) with a randomised roll-buffer capacity from 1 byte to 64 KiB (hook H2, eager growth), through a tmpfs file with and without memory maps, with the multi-line request toggled, and with the heap limit bisected to the just-sufficient value and one below. Oracle: the complete recorded event stream (kinds, bytes, line numbers, absolute offsets, separators, final byte count, Ok result) is identical to the slice run; heap limit one below sufficient fails with the allocation error after delivering a prefix.",
+  "Pattern pool restricted to patterns that cannot match a line terminator; binary detection off (C14). Sampling, not enumeration. The CLI leg (rg under syscall-level read fragmentation/EINTR) is part of the C15/C14 process-level checks' fault kinds, not repeated here.",
+  "deterministic simulation: seeded read-history / buffer-capacity / EINTR injection, differential oracle against the slice search",
+  "DESIGN.md section 5/C02, section 2/E1")
+check("C03", "iosim", "exploration",
+  "The same simulated runs as C02 (slice, readers under seeded histories and capacities, file/mmap, multi-line toggled) judged by an independent oracle: an executable grep reference model (split at the terminator, regex crate per line, textbook before/after windows, separators between non-adjacent groups, passthru, stop-on-nonmatch, 1-based numbering, offsets, byte count for completed searches) that shares no code with the searcher, plus in-run sink invariants (offsets strictly increasing, hence order and uniqueness). The state carried across buffer rolls (after_context_left, last_line_visited, last_line_counted, line_number, has_sunk) is what the history dimension attacks; the fault-free slice run is the baseline configuration.",
+  "The model decides 'does this line match' with the regex crate on the line content; the pattern pool is kept to patterns whose per-line meaning is uncontroversial (C01's territory is not judged). The history-independent part of C03 is covered only as strongly as random generation covers it.",
+  "deterministic simulation: seeded read histories + executable reference model as oracle",
+  "DESIGN.md section 5/C03")
